@@ -256,6 +256,8 @@ def host_layer_norm_bias(g):
         ins.append(g.add_input(dt, nshape))
         g.features.add(f"{tag}:has_B_input")
     nout = dv("outputs", 1, [2, 3])
+    if dt != F32:
+        nout = 1  # Mean / InvStdDev are float32 (stash type) by schema; onnx.reference returns them in x's dtype -> keep f32 only
     g.features.add(f"{tag}:nout_{nout}")
     ln = g.emit("LayerNormalization", ins, n_out=nout, **attrs)
     if not ln:
@@ -370,7 +372,7 @@ def host_rotary(g):
     tag = "planted:rotary"
     g.features.add(tag)
     rr = _Rng(g)
-    g.set_opset(rr.pick([13, 14, 17, 18, 19, 20, 21, 22, 23, 23, 23, 23, 23]))
+    g.set_opset(rr.pick([13, 14, 17, 18, 19, 20, 21, 22, 23, 23, 23, 23, 23, 23, 23, 23]))
     g.features.add(f"{tag}:opset_{'23' if g.opset == 23 else 'lt23'}")
     dev, dv = _dev(rr, g, tag, ["freqs", "freqs", "slice", "slice", "axes", "sym", "dtype", "halves", "extra", "order"])
     dt = dv("dtype", rr.pick([F32, F32, F32, F16]), [F64])
@@ -459,6 +461,7 @@ def host_partial_rotary(g):
     tag = "planted:partial_rotary"
     g.features.add(tag)
     rr = _Rng(g)
+    n0 = len(g.env)
     if not g.set_opset(23):
         return None
     dev, dv = _dev(rr, g, tag, ["bounds", "bounds", "bounds", "attrs", "attrs", "axes", "extra", "posids"])
@@ -470,10 +473,11 @@ def host_partial_rotary(g):
     g.features.add(f"{tag}:D_{'odd' if d % 2 else 'even'}")
     dims = rr.pick([[b, h, s, d], [b, h, s, d], ["B", h, "S", d], [None, h, None, d]])
     x = rr.mix(g.add_input(dt, (b, h, s, d), style=rr.pick(["mixed", "edge", "smallint", "unit"]), dims=dims))
-    bounds = dv("bounds", "pos_pos", ["neg_neg", "neg_neg", "pos_neg", "gap", "pos_pos"])
+    bknob = rr.pick(["bounds", "bounds", "bounds", "end2"])
+    bounds = dv("bounds", "pos_pos", ["neg_neg", "neg_neg", "pos_neg", "gap"]) if bknob == "bounds" or dev == "any" else "pos_pos"
     end1, start2 = {"pos_pos": (r, r), "neg_neg": (r - d, r - d), "pos_neg": (r, r - d), "gap": (r, r + 1 if r + 1 < d else r)}[bounds]
     g.features.add(f"{tag}:bounds_{bounds}")
-    end2 = dv("bounds", MAX_INT64, [d])
+    end2 = dv("bounds", MAX_INT64, [d]) if bknob == "end2" or dev == "any" else MAX_INT64
     sax = dv("axes", [3], [[-1]])
     p1 = g.emit("Slice", [x, _i64(g, [0], rr=rr), _i64(g, [end1], rr=rr), _i64(g, sax, rr=rr), _i64(g, [1], rr=rr)])
     p2 = g.emit("Slice", [x, _i64(g, [start2], rr=rr), _i64(g, [end2], rr=rr), _i64(g, sax, rr=rr), _i64(g, [1], rr=rr)])
@@ -483,10 +487,11 @@ def host_partial_rotary(g):
     nh = rr.pick([None, h])
     if nh is not None:
         attrs["num_heads"] = nh
-    il = dv("attrs", rr.pick([None, 0]), [1])
+    knob = rr.pick(["interleaved", "redim"])  # one attribute leaves the textbook at a time
+    il = dv("attrs", rr.pick([None, 0]), [1]) if knob == "interleaved" or dev == "any" else rr.pick([None, 0])
     if il is not None:
         attrs["interleaved"] = il
-    red = dv("attrs", None, [r, r - 2 if r > 2 else r])
+    red = dv("attrs", None, [r, r - 2 if r > 2 else r]) if knob == "redim" or dev == "any" else None
     if red is not None:
         attrs["rotary_embedding_dim"] = red
     g.features.add(f"{tag}:interleaved_{il}_redim_{'absent' if red is None else 'present'}")
@@ -515,7 +520,7 @@ def host_partial_rotary(g):
     if dv("extra", False, [True]):
         outs.append(rope[0])
         g.features.add(f"{tag}:extra_rope")
-    return outs
+    return _hide(g, rr, n0, outs, tag)
 
 
 # ----------------------------------------------------------------------------------------------- GQA
